@@ -376,7 +376,23 @@ def run(prog: Program, chk: Check):
                      + (", ".join(("" if pol else "not ") + norm(e) for e, pol in paths[bad[0]]) if bad else ""))
     # the candidate always comes from _read_message
     calls = [c for c in calls_in(rd.node) if is_method_call(c, "_read_message") and path_of(recv_of(c)) == "self"]
-    F.decide(len(calls) >= 1 and all(len(c.args) >= 3 and norm(c.args[2]) == "sync_check" or any(k.arg == "sync_check" and norm(k.value) == "sync_check" for k in c.keywords) for c in calls),
+    # ... possibly through a helper of the client the rules never saw (a generator that pulls the frames): the helper's own
+    # parameter must be what it passes on, and read_message must hand it its sync_check
+    via_helper_ok = True
+    for hc in [c for c in calls_in(rd.node) if isinstance(c.func, ast.Attribute) and path_of(c.func.value) == "self" and c.func.attr in cl.methods and prog.is_expanded_helper(cl.methods[c.func.attr])]:
+        h = cl.methods[hc.func.attr]
+        inner = [c for c in calls_in(h.node) if is_method_call(c, "_read_message") and path_of(recv_of(c)) == "self"]
+        if not inner:
+            continue
+        from .. import callgraph as _cg
+        b_ = _cg.bind_args(h, hc, bound_method=True)
+        for c in inner:
+            a = c.args[2] if len(c.args) >= 3 else next((k.value for k in c.keywords if k.arg == "sync_check"), None)
+            okp = a is not None and isinstance(a, ast.Name) and a.id in h.params() and norm(b_.get(a.id)) == "sync_check" if a is not None and isinstance(a, ast.Name) and b_.get(a.id) is not None else False
+            via_helper_ok = via_helper_ok and okp
+            calls.append(None)
+    calls_direct = [c for c in calls if c is not None]
+    F.decide(len(calls) >= 1 and via_helper_ok and all(len(c.args) >= 3 and norm(c.args[2]) == "sync_check" or any(k.arg == "sync_check" and norm(k.value) == "sync_check" for k in c.keywords) for c in calls_direct),
              fkey(rd, "passes-sync_check"), where(rd), "every inner read passes the caller's sync_check", "an inner _read_message call does not pass sync_check through")
 
     # ---- V rejection conditions ---------------------------------------------------------------------------------
